@@ -156,7 +156,7 @@ Field(t, w, forced) ==
                 ELSE LET c == ReadNumColumn(t, w, pos, t = "code") IN {[vs |-> c.vs, fb |-> <<>>, n |-> c.n, ok |-> c.ok, d |-> c.d]}
 
 Entry(lab, t, w, sc, ref, link, plain, vs) ==
-    [lab |-> lab, t |-> t, w |-> w, sc |-> sc, ref |-> ref, link |-> link, plain |-> plain, v |-> vs, d |-> -1, p |-> pos, mean |-> 0]
+    [lab |-> lab, t |-> t, w |-> w, sc |-> sc, ref |-> ref, link |-> link, plain |-> plain, v |-> vs, d |-> -1, p |-> pos, mean |-> 0, at |-> pc]
 
 (***************************************************************************)
 (* Control: moving to the next instruction, closing replication frames     *)
